@@ -771,8 +771,16 @@ def tokenBefore (toks : List Token) (index : Nat) : Option Token :=
       | t :: rest, cur => if t.range.lo ≥ index then cur else go rest t
     some (go toks first)
 
+/-- `token_before_skipping_comments`: the last token that is not a comment, up to and including the token
+    `token_before` finds. -/
+def tokenBeforeSkippingComments (toks : List Token) (index : Nat) : Option Token :=
+  match tokenBefore toks index with
+  | none => none
+  | some before =>
+    ((toks.takeWhile (fun t => t.range.lo ≤ before.range.lo)).filter (fun t => t.kind != .Comment)).getLast?
+
 def completeType (position : Nat) (toks : List Token) (g : GlobalTable) : Option (List Item) :=
-  match tokenBefore toks position with
+  match tokenBeforeSkippingComments toks position with
   | none => none
   | some last =>
     match last.kind with
@@ -791,7 +799,8 @@ def stmtIsIf : Stmt → Bool
   | _ => false
 
 /-- tokens of a statement: `stmt.info().slice(&tokens[stmt.offset..])`, and its text range measured
-    on that slice (`stmt.to_text_range(tokens)`). -/
+    on that slice without the comments in front of it (`range_without_leading_comments(stmt, tokens)`:
+    from the first non-comment token to the end of `stmt.to_text_range(tokens)`). -/
 def stmtSlice (toks : Slice) (s : Stmt) (offset : Nat) : Except Panic (Slice × Range) :=
   match toks.from offset with
   | none => .error ⟨"slice"⟩
@@ -801,7 +810,11 @@ def stmtSlice (toks : Slice) (s : Stmt) (offset : Nat) : Except Panic (Slice × 
     | some s2 =>
       match toTextRange s2 s.info.range with
       | .error e => .error e
-      | .ok r => .ok (s2, r)
+      | .ok r =>
+        let lo := match s2.toList.find? (fun t => t.kind != .Comment) with
+          | some t => t.range.lo
+          | none => r.lo
+        .ok (s2, ⟨lo, r.hi⟩)
 
 mutual
   /-- `complete_statements`: `lastIf` = the statement before the current one is an `if`. -/
@@ -856,7 +869,7 @@ def isRealStmt : Stmt → Bool
 
 def completeProcedure (pd : ProcDecl) (position : Nat) (toks : Slice) (g : GlobalTable) :
     Except Panic (Option (List Item)) :=
-  match tokenBefore toks.toList position with
+  match tokenBeforeSkippingComments toks.toList position with
   | none => .ok none
   | some last =>
     let inSignature : Bool := match toks.toList.find? (fun t => t.kind == .RParen || t.kind == .LCurly) with
